@@ -177,6 +177,7 @@ type vcNet struct {
 	tmpdir    string
 	bound     int
 	gstOn     bool
+	plan      []vcStep // follow-up steps of a coordinated adversarial move (walker)
 }
 
 func vcKey(m vcMsg) string { return m.T + "|" + m.Src + "|" + strconv.Itoa(m.R) + "|" + m.V }
@@ -968,6 +969,57 @@ func (net *vcNet) candidates(rng *rand.Rand) []vcCand {
 }
 
 func (net *vcNet) enabledSteps(rng *rand.Rand) []vcStep {
+	if len(net.plan) > 0 {
+		st := net.plan[0]
+		net.plan = net.plan[1:]
+		return []vcStep{st}
+	}
+	// coordinated adversary: all faulty validators cast the same vote for one (type, round, value) at one
+	// node, back to back — with > 1/3 (solo: > 2/3) of the power this creates polkas / +2/3-any at will,
+	// also for OLDER rounds (late quorums) and for the next round (round skips)
+	if len(net.byz) >= 1 && rng.Intn(6) == 0 && len(net.corr) > 0 {
+		nn := net.corr[rng.Intn(len(net.corr))]
+		n := net.nodes[nn]
+		if n.panicked == "none" && n.cs.Height == 1 {
+			blocks := []string{"nil"}
+			for name := range net.blocks {
+				blocks = append(blocks, name)
+			}
+			sort.Strings(blocks)
+			cur := int(n.cs.Round)
+			r := cur
+			switch rng.Intn(4) {
+			case 0:
+				if cur > 0 {
+					r = rng.Intn(cur) // an older round
+				}
+			case 1:
+				r = cur + 1
+			}
+			if r <= net.maxRound {
+				t := []string{"prevote", "prevote", "precommit"}[rng.Intn(3)]
+				v := blocks[rng.Intn(len(blocks))]
+				split := rng.Intn(4) == 0 // "+2/3 any" without a majority
+				k := 0
+				for _, b := range net.names {
+					if !net.byz[b] {
+						continue
+					}
+					vv := v
+					if split && k%2 == 1 {
+						vv = blocks[rng.Intn(len(blocks))]
+					}
+					k++
+					net.plan = append(net.plan, vcStep{Name: "Deliver", N: nn, M: vcMsg{T: t, Src: b, R: r, V: vv, Pol: -2}})
+				}
+				if len(net.plan) > 0 {
+					st := net.plan[0]
+					net.plan = net.plan[1:]
+					return []vcStep{st}
+				}
+			}
+		}
+	}
 	cands := net.candidates(rng)
 	if len(cands) == 0 {
 		return nil
